@@ -34,9 +34,13 @@ pub enum Cell {
     L,
     /// not JSON
     G,
+    /// an invalid signature labelled f followed by a valid signature by another key
+    WM,
+    /// a valid signature by another key followed by an invalid signature labelled f
+    MW,
 }
 
-pub const CELLS: [Cell; 8] = [Cell::Absent, Cell::V, Cell::W, Cell::T, Cell::X, Cell::M, Cell::L, Cell::G];
+pub const CELLS: [Cell; 10] = [Cell::Absent, Cell::V, Cell::W, Cell::T, Cell::X, Cell::M, Cell::L, Cell::G, Cell::WM, Cell::MW];
 
 impl Cell {
     fn name(&self) -> &'static str {
@@ -49,6 +53,8 @@ impl Cell {
             Cell::M => "multiply-signed",
             Cell::L => "sublayout",
             Cell::G => "garbage",
+            Cell::WM => "invalid-own-signature+valid-other-signature",
+            Cell::MW => "valid-other-signature+invalid-own-signature",
         }
     }
     fn from_name(s: &str) -> Cell {
@@ -107,6 +113,21 @@ fn cell_content(step: &str, i: usize, cell: Cell) -> Option<String> {
             Some(world::block_text(&world::sign_layout(inner, &[k])))
         }
         Cell::G => Some("{ this is not json".to_string()),
+        Cell::WM | Cell::MW => {
+            // f's entry carries a signature made over other content; g's entry is valid
+            let mut otherl = base_link(step);
+            otherl.command = vec!["other".to_string()].into();
+            let donor = world::block_value(&world::sign_link(otherl, &[k]));
+            let mut v = world::block_value(&world::sign_link(base_link(step), &[g]));
+            let bad = donor["signatures"][0].clone();
+            let arr = v["signatures"].as_array_mut().unwrap();
+            if cell == Cell::WM {
+                arr.insert(0, bad);
+            } else {
+                arr.push(bad);
+            }
+            Some(v.to_string())
+        }
     }
 }
 
@@ -194,7 +215,7 @@ fn reasons(spec: &LayoutSpec, st: &State) -> String {
                 rs.insert("not-in-keytable");
             }
             match c {
-                Cell::W => {
+                Cell::W | Cell::WM | Cell::MW => {
                     rs.insert("bad-signature");
                 }
                 Cell::T => {
@@ -375,11 +396,11 @@ pub fn run(tier: Tier) -> i32 {
     let specs1: Vec<LayoutSpec> = (0u8..16)
         .flat_map(|m| (0u32..4).map(move |t| LayoutSpec { steps: vec![(m, t)] }))
         .collect();
-    let (states1, tr1) = bfs(1, 4);
+    let (states1, tr1) = bfs(1, if tier.thorough() { 4 } else { 3 });
     let mut acc = sweep(&states1, &specs1, 1);
     acc.states += states1.len() as u64;
     acc.transitions += tr1;
-    let mut bound = format!("1 step: BFS depth 4 from the empty and the fully valid directory = all {} populations x 64 layouts", states1.len());
+    let mut bound = format!("1 step: BFS depth {} from the empty and the fully valid directory = {} populations x 64 layouts", if tier.thorough() { "4 (all populations)" } else { "3" }, states1.len());
     // two steps: D is authorised only for the second step
     let depth2 = if tier.thorough() { 3 } else { 2 };
     let specs2: Vec<LayoutSpec> = {
@@ -400,7 +421,7 @@ pub fn run(tier: Tier) -> i32 {
     bound += &format!("; 2 steps: BFS depth {depth2} = {} populations x {} layouts", states2.len(), specs2.len());
     c.acc = acc;
     c.bound_completed = bound;
-    c.rule = "state = link-directory population: per (step, functionary in {A,B in key table; C not in key table; D in key table}) one of absent/valid/wrongly-signed/tampered/signed-by-other-key/multiply-signed/sublayout/garbage; transition = set one cell; every state is run through in_toto_verify for every layout (authorised subset x threshold); non-trivial = population with at least one non-valid file".into();
+    c.rule = "state = link-directory population: per (step, functionary in {A,B in key table; C not in key table; D in key table}) one of absent/valid/wrongly-signed/tampered/signed-by-other-key/multiply-signed/sublayout/garbage/invalid-own+valid-other signature (both orders); transition = set one cell; every state is run through in_toto_verify for every layout (authorised subset x threshold); non-trivial = population with at least one non-valid file".into();
     c.assume("all valid links carry identical artifacts and there are no rules (isolates C07 and C03)");
     c.assume("ring's signature verification is a trusted black box");
     c.assume("one-directional oracle: a verifier that rejects more than necessary is not reported");
